@@ -43,7 +43,7 @@ def symbol_level(draw, m):
     if not ifs:
         return None, None
     k, i = _pick(draw, ifs)
-    kind = _pick(draw, ["toggle_weak", "add_alias", "remove_alias", "reversion"])
+    kind = _pick(draw, ["toggle_weak", "add_alias", "remove_alias", "reversion", "alias_takeover"])
     info = {"kind": "sym_" + kind, "iface": i["name"], "removed": [], "added": [], "affected": []}
     if kind == "toggle_weak":
         i["weak"] = not i.get("weak", False)
@@ -58,6 +58,24 @@ def symbol_level(draw, m):
             return None, None
         al = i["aliases"].pop()
         info["removed"] = [al["name"]]
+    elif kind == "alias_takeover":
+        # the defining name goes away, its former alias name lives on as a definition of its own (compat symbol)
+        if not i.get("aliases"):
+            return None, None
+        al = i["aliases"][0]["name"]
+        lst = m2["funcs"] if k == "fn" else m2["vars"]
+        lst.remove(i)
+        j = copy.deepcopy(i)
+        j["name"] = al
+        j["aliases"] = i["aliases"][1:]
+        j.pop("version", None)
+        if draw(st.booleans()):
+            if k == "fn":
+                j["params"] = j["params"] + [{"name": "extra", "type": ["b", "int"]}]
+            else:
+                j["type"] = ["b", "long"] if j["type"] != ["b", "long"] else ["b", "int"]
+        lst.append(j)
+        info["removed"] = [i["name"]]
     else:
         if i.get("vis", "default") != "default":
             return None, None
@@ -98,6 +116,14 @@ def mutate_many(draw, m, lo=1, hi=5, kinds=None, version=False):
     return cur, infos
 
 
+def _sonames(draw):
+    """None (no DT_SONAME), or the SONAMEs of the two builds (equal or different)."""
+    c = draw(st.integers(0, 9))
+    if c >= 3:
+        return None
+    return ["libgen.so.1", "libgen.so.1"] if c == 0 else ["libgen.so.1", "libgen.so.2"]
+
+
 SYMONLY_KINDS = [("add", 40), ("remove", 40), ("symbol", 20)]
 
 
@@ -111,7 +137,8 @@ def multi_pair(draw, tier="quick", lang="any", lo=1, hi=5, nodebug=True, kinds=N
         m = draw(library(lang="c", max_types=3, min_funcs=3, max_funcs=8, max_vars=4, symfeatures=True, versions="yes"))
         cfg = draw(build_config())
         m2, infos = mutate_many(draw, m, max(lo, 2), hi + 2, SYMONLY_KINDS, version=True)
-        return {"model": m, "cfg": cfg, "mutant": m2, "infos": infos, "nodebug": list(range(max(M.ntus(m), M.ntus(m2))))}
+        return {"model": m, "cfg": cfg, "mutant": m2, "infos": infos, "nodebug": list(range(max(M.ntus(m), M.ntus(m2)))),
+                "sonames": _sonames(draw)}
     m = draw(library(lang=lang, max_types=10 if big else 7, min_funcs=2, max_funcs=7, max_vars=3, symfeatures=symfeatures,
                      tu_private=tu_private))
     cfg = draw(build_config())
@@ -121,4 +148,4 @@ def multi_pair(draw, tier="quick", lang="any", lo=1, hi=5, nodebug=True, kinds=N
         # one translation unit of both builds is compiled without -g: its interfaces show up as symbols not referenced by
         # debug info
         nd = [draw(st.integers(0, M.ntus(m) - 1))]
-    return {"model": m, "cfg": cfg, "mutant": m2, "infos": infos, "nodebug": nd}
+    return {"model": m, "cfg": cfg, "mutant": m2, "infos": infos, "nodebug": nd, "sonames": _sonames(draw)}
